@@ -29,7 +29,7 @@ RULE = ('Inputs: the tier-0/tier-1 structures of the repository\'s test data (mi
         'within residues (random and reversed), hydrogens renamed (PDB-style rotation and arbitrary names), rigid motion, '
         'and another hash seed. Non-trivial pair = the presentation really changed atom order / names / frame (recorded by '
         'the wrapper) and the reference topology has >= 1 inter-residue interaction. distinct = distinct (input, options, '
-        'presentation) triples. Also: Go-model option sets (presented permuted, H-renamed, hash-seeded and translated, never rotated), requested terminal modifications (caps, neutral termini); a reference run that fails is retried under six other hash seeds; the structure handed over as a .gro file; hydrogens renamed in the input file itself (old PDB style 1HB, arbitrary).')
+        'presentation) triples. Also: Go-model option sets (presented permuted, H-renamed, hash-seeded and translated, never rotated), requested terminal modifications (caps, neutral termini); a reference run that fails is retried under six other hash seeds; the structure handed over as a .gro file; hydrogens renamed in the input file itself (old PDB style 1HB, arbitrary); two bonded chains whose atom serial numbers restart per chain, with -dssp; an input that fails as given and converts in another presentation is a violation.')
 ASSUMPTIONS = ['numeric parameters are compared as printed with tolerance 1e-4 relative + 2e-5 absolute (geometry-derived values '
                'are printed with 5 decimals and may flip their last digit); dihedral angles of +-180 are identified',
                'an elastic bond whose length is within 2e-5 nm of the upper cut-off may be present in one run only '
@@ -413,6 +413,11 @@ def cases(tier, seed):
                 (ren if tier != 'quick' else ren[:1])
         elif tier == 'quick' and g == 2:
             grp['presentations'] = pres[:2] + [('rename-h-file', {'hstyle': 'pdb-rotation'})]
+        elif (tier == 'quick' and g == 4) or (tier != 'quick' and g % 12 == 5):
+            # two bonded chains whose atom serial numbers restart with every chain (as many modelling tools write them), secondary
+            # structure computed from the structure itself
+            grp.update({'pdb': T1 + '3i40/3i40.pdb', 'options': ['-ff', 'martini3001', '-dssp', '-ignore', 'HOH'], 'restart_serials': True,
+                        'presentations': [('permute', {'pstyle': 'random'}), ('reverse-file', {}), ('hashseed', {})]})
         elif tier == 'quick' and g == 3:
             # a deposited structure with CONECT records between chains (disulfide bridges of insulin), its atom records reversed
             grp.update({'pdb': T1 + '3i40/3i40.pdb', 'options': ['-ff', 'martini3001', '-elastic', '-p', 'backbone'],
@@ -445,6 +450,20 @@ def split_first_residue(src, dst):
             out.append(l)
     with open(dst, 'w') as f:
         f.writelines(out)
+
+
+def restart_serials(src, dst):
+    """The same file with atom serial numbers restarting at 1 in every chain; CONECT records (which name serials) are left out, the
+    bridges between the chains are found by distance."""
+    count = {}
+    with open(src) as f, open(dst, 'w') as g:
+        for l in f:
+            if l.startswith('CONECT'):
+                continue
+            if l.startswith(('ATOM', 'HETATM')):
+                count[l[21]] = count.get(l[21], 0) + 1
+                l = l[:6] + '%5d' % count[l[21]] + l[11:]
+            g.write(l)
 
 
 def reverse_residues_in_file(src, dst):
@@ -547,6 +566,9 @@ def run_case(params):
     if params.get('split_first_residue'):
         split_first_residue(pdb, os.path.join(base, 'split.pdb'))
         pdb = os.path.join(base, 'split.pdb')
+    if params.get('restart_serials'):
+        restart_serials(pdb, os.path.join(base, 'restarted.pdb'))
+        pdb = os.path.join(base, 'restarted.pdb')
     orig_pdb = pdb
     if params.get('gro'):
         # the same structure handed over as a .gro file: reference and presentations all start from it
@@ -566,6 +588,24 @@ def run_case(params):
                     b.hits += 1
                     b.violation('hashseed/run-failed', 'the pipeline fails under one hash seed and converts the same input under another',
                                 {'input': params['pdb'], 'options': params['options'], 'fails_with_hashseed': 0, 'works_with_hashseed': hs,
+                                 'returncode': r.returncode, 'stderr': r.stderr[-1200:]})
+                    return b.result()
+            # ... or in another presentation?  Then it fails on one presentation of a structure that it converts in another one.
+            for (kind, extra) in params['presentations']:
+                if kind not in ('permute', 'rename-h', 'rigid', 'reverse-file') or (kind == 'reverse-file' and params.get('gro')):
+                    continue
+                d = os.path.join(base, 'alt-' + kind + '-' + '-'.join(str(v) for v in extra.values()))
+                if kind == 'reverse-file':
+                    os.makedirs(d, exist_ok=True)
+                    reverse_residues_in_file(pdb, os.path.join(d, 'reversed.pdb'))
+                    r2 = run_cli(os.path.join(d, 'reversed.pdb'), params['options'], 'reference', {}, params['pseed'], 0, d)
+                else:
+                    r2 = run_cli(pdb, params['options'], kind, extra, params['pseed'], 0, d)
+                b.total += 1
+                if r2.returncode == 0:
+                    b.hits += 1
+                    b.violation('presentation/run-failed', 'the pipeline fails on one presentation of a structure it converts in another',
+                                {'input': params['pdb'], 'options': params['options'], 'fails_as': 'given', 'converts_as': [kind, extra],
                                  'returncode': r.returncode, 'stderr': r.stderr[-1200:]})
                     return b.result()
             b.inconclusive('reference-run-failed')
